@@ -367,6 +367,89 @@ Proof.
        |repeat split; auto; try discriminate; lia].
   right; right. lia.
 Qed.
+
+(* the entry points raise on shape grounds exactly as the shape tests of Model/RegressObj.v say (the tests that the harness
+   regenerates from the Python source on every run) *)
+Theorem plsr_entry_shape_tests p X Y a Xn Yn :
+  (fit_entry p X Y = FitRaiseClean <-> plsr_fit_rejects (shape X) (shape Y) = true) /\
+  shape (as_matrix Y) = y_matrix_shape (shape Y) /\
+  (plsr_new_x_rejects (a_xshape a) (shape Xn) = true ->
+     plsr_predict_entry Op p a Xn = Err /\ forall Yo, plsr_transform_entry Op p a Xn Yo = Err) /\
+  (plsr_new_y_rejects (a_yshape a) (shape Yn) = true -> plsr_transform_entry Op p a Xn (Some Yn) = Err).
+Proof.
+  split; [|split; [|split]].
+  - unfold RegressObj.plsr_fit_entry, plsr_fit_rejects, ndim.
+    destruct (shape X) as [|nx sx]; [tauto|]. destruct (shape Y) as [|ny sy]; [tauto|].
+    destruct (negb (nx =? ny)); cbn [orb]; [tauto|].
+    destruct (length (nx :: sx) <? 2); cbn [orb]; [tauto|].
+    destruct ((length (ny :: sy) =? 1) || (length (ny :: sy) =? 2)); cbn [negb]; [|tauto].
+    destruct (cp_plsr_fit _ _ _ _ _ _ _ _ _); split; discriminate.
+  - unfold as_matrix, y_matrix_shape. destruct (shape Y) as [|n [|m l]] eqn:E; cbn [shape]; auto.
+  - unfold plsr_new_x_rejects. intros H. split; [unfold plsr_predict_entry|intros Yo; unfold plsr_transform_entry]; now rewrite H.
+  - unfold plsr_new_y_rejects, plsr_transform_entry, ndim. intros H.
+    destruct (negb (nl_eqb (tl (a_xshape a)) (tl (shape Xn)))); [reflexivity|].
+    destruct (fitted_width a <? pp_ncomp p); [reflexivity|].
+    destruct (negb ((length (shape Yn) =? 1) || (length (shape Yn) =? 2))); [reflexivity|]. cbn [orb] in H.
+    assert (E : shape (as_matrix Yn) = y_matrix_shape (shape Yn))
+      by (unfold as_matrix, y_matrix_shape; destruct (shape Yn) as [|n [|m l]] eqn:E0; cbn [shape]; auto).
+    rewrite E, H. reflexivity.
+Qed.
+
+(* histories of the CP_PLSR object *)
+Lemma prun_app a : forall o b,
+  prun o (a ++ b) = (fst (prun (fst (prun o a)) b), snd (prun o a) ++ snd (prun (fst (prun o a)) b)).
+Proof.
+  induction a as [|c a IH]; intros o b; cbn [app RegressObj.prun fst snd].
+  - now destruct (prun o b).
+  - rewrite IH. reflexivity.
+Qed.
+
+(* the attributes of every reachable state were bound by ONE fit call (successful, or raising inside its component loop):
+   whatever every such call establishes holds in every reachable state *)
+Theorem pobj_reachable_inv (Inv : pattrs -> Prop) :
+  (forall p X Y a, fit_entry p X Y = FitOk a \/ fit_entry p X Y = FitRaisePartial a -> Inv a) ->
+  forall cs o, (forall a, po_attrs o = Some a -> Inv a) -> forall a, po_attrs (fst (prun o cs)) = Some a -> Inv a.
+Proof.
+  intros Hfit. induction cs as [|c cs IH]; intros o Ho a; cbn [RegressObj.prun fst]; [apply Ho|].
+  apply IH. destruct c as [X Y|X|X Yo|X Y|p]; cbn [RegressObj.pstep fst]; try exact Ho.
+  - destruct (fit_entry (po_prm o) X Y) as [|a'|a'] eqn:E; cbn [fst po_attrs]; [exact Ho| |];
+      intros a0 H0; injection H0 as <-; eapply Hfit; [right|left]; exact E.
+  - destruct (fit_entry (po_prm o) X Y) as [|a'|a'] eqn:E; cbn [fst po_attrs]; [exact Ho| |];
+      intros a0 H0; injection H0 as <-; eapply Hfit; [right|left]; exact E.
+Qed.
+
+(* e.g. the recorded shapes: X_shape_ has at least two modes, Y_shape_ exactly two, the first modes agree, and the number of
+   exposed components is the n_components of that fit call *)
+Theorem pobj_reachable_shapes cs p0 a :
+  po_attrs (fst (prun (mkPobj p0 None) cs)) = Some a -> attrs_shapes_ok a.
+Proof.
+  apply (pobj_reachable_inv attrs_shapes_ok); [|cbn; discriminate].
+  clear. intros p X Y a H. unfold RegressObj.plsr_fit_entry, ndim in H.
+  destruct (shape X) as [|nx sx] eqn:HX; [destruct H; discriminate|].
+  destruct (shape Y) as [|ny sy] eqn:HY; [destruct H; discriminate|].
+  destruct (nx =? ny) eqn:En; cbn [negb] in H; [apply Nat.eqb_eq in En|destruct H; discriminate].
+  destruct (length (nx :: sx) <? 2) eqn:El; [destruct H; discriminate|]. apply Nat.ltb_ge in El.
+  assert (HY2 : length (shape (as_matrix Y)) = 2 /\ hd 0 (shape (as_matrix Y)) = ny).
+  { unfold as_matrix. rewrite HY. destruct sy as [|m [|m' l]]; cbn [shape length hd]; try rewrite HY; cbn [length hd]; auto.
+    cbn [length Nat.eqb orb negb] in H. destruct H; discriminate. }
+  destruct ((length (ny :: sy) =? 1) || (length (ny :: sy) =? 2)); cbn [negb] in H; [|destruct H; discriminate].
+  destruct (cp_plsr_fit _ _ _ _ _ _ _ _ _); destruct H as [H|H]; try discriminate; injection H as <-;
+    unfold attrs_shapes_ok; cbn [a_xshape a_yshape hd]; rewrite ?HX; cbn [hd]; destruct HY2 as [-> ->]; auto.
+Qed.
+
+(* every predict of a history answers from the attributes and the n_components in force at that moment *)
+Theorem pobj_predict_uses_current cs1 X cs2 o :
+  nth (length cs1) (snd (prun o (cs1 ++ PPredict X :: cs2))) PRaise =
+  match po_attrs (fst (prun o cs1)) with
+  | None => PRaise
+  | Some a => match plsr_predict_entry Op (po_prm (fst (prun o cs1))) a X with Ok t => PTensor t | Err => PRaise end
+  end.
+Proof.
+  rewrite prun_app. cbn [snd].
+  assert (L : length (snd (prun o cs1)) = length cs1).
+  { clear. revert o. induction cs1 as [|c cs IH]; intros o; cbn [RegressObj.prun snd length]; [reflexivity|now rewrite IH]. }
+  rewrite app_nth2 by lia. rewrite L, Nat.sub_diag. reflexivity.
+Qed.
 End PlsrObjP.
 
 (* ------------------------------------------------------------------ ring regime: fit_transform(X, Y); the zero state *)
